@@ -15,6 +15,8 @@ for d in sorted(os.listdir(os.path.join(root, "seeded"))):
             how = "proof+replay" if (v.get("replay") or {}).get("broken") not in (None, "[]", []) and "no-failing" not in v["violation_line"] else ("replay" if "no-failing" not in v["violation_line"] else "broken tie only")
             caught.append(f"{pid} ({how})")
     note = m.get("strengthened", "")
+    if m.get("neutralised_by"):
+        note = (note + " " if note else "") + "No longer a violation on the current tree: " + m["neutralised_by"]
     rows.append(f"| `seeded/{d}` | {m.get('property')} | {m.get('summary','').replace('|','/')[:230]} | {m.get('manifests_when','').replace('|','/')[:200]} | {'yes' if m.get('confirmation',{}).get('confirmed') else 'NO'} | {', '.join(caught) or '**missed**'} | {note} |")
 table = "| change | property | what it does | needs, to manifest | confirmed | caught by (quick tier) | check strengthened? |\n|---|---|---|---|---|---|---|\n" + "\n".join(rows)
 p = os.path.join(root, "DESIGN.md")
